@@ -1,1 +1,150 @@
-(* placeholder: additions engine (C12), under construction *)
+(* C12 — built functions appear exactly as built.  Statements only.
+   "A function finished with the function builder appears in the encoded module with exactly the requested parameter
+   and result types, the declared locals, the built instruction sequence followed by one end, and its name if one was
+   set, and the returned function ID refers to it." *)
+From Coq Require Import List Arith NArith ZArith Bool.
+Import ListNotations.
+From Orca Require Import Util Flat Lowering Locals LocalsProofs Types TypesProofs Reindex CheckReidx Builder CheckBuild BuildProofs.
+Local Open Scope N_scope.
+
+(* finish_module appends exactly one End to whatever the Opcode helpers pushed, and keeps the name that was set *)
+Theorem C12_finish_appends_one_end :
+  forall (s : bstate) fp params results locs body name s' r,
+  bstep s (BBuild fp params results locs body name) = Ok (s', r) ->
+  exists p, plook (b_fpay s') fp = Some p /\ fp_body p = body ++ [end_tok] /\ fp_name p = name
+            /\ removelast (fp_body p) = body /\ last (fp_body p) (0, []) = end_tok.
+Proof. exact finish_appends_one_end. Qed.
+Print Assumptions C12_finish_appends_one_end.
+
+(* the run-length groups FunctionBuilder::add_local produces expand to the requested list of locals, for every list
+   (any types, any repetitions, no bound); the ids handed out are params.len(), params.len()+1, ... *)
+Theorem C12_declared_locals_exact :
+  forall params locs : list N,
+  expand (groups (built_locals params locs)) = locs
+  /\ nparams (built_locals params locs) = lenN params
+  /\ fst (add_seq locs (mkLocals (lenN params) 0 [])) = LocalsProofs.ids_from (lenN params) (length locs).
+Proof. exact built_locals_exact. Qed.
+Print Assumptions C12_declared_locals_exact.
+
+(* the dedup map of every parsed type section is consistent (any hash iteration order), every API call keeps it so *)
+Theorem C12_type_table_invariant :
+  (forall c : bcase, tinv (bbase c)) /\ (forall s o s' r, tinv s -> bstep s o = Ok (s', r) -> tinv s').
+Proof. split; [exact base_tinv | exact bstep_tinv]. Qed.
+Print Assumptions C12_type_table_invariant.
+
+(* one finish_module: exactly one function item is appended, the returned id is its stored id and position, and its
+   payload is the request: the requested signature is the type stored at its type id (add_func_type, with or without
+   a dedup hit), the groups expand to the requested locals, the body is the built sequence and one End, the name *)
+Theorem C12_build_step_exact :
+  forall s fp params results locs body name s' r,
+  tinv s -> bstep s (BBuild fp params results locs body name) = Ok (s', r) ->
+  s_items (m_f (b_m s')) = s_items (m_f (b_m s)) ++ [mkItem (lenN (s_items (m_f (b_m s)))) None false fp]
+  /\ r = Some (lenN (s_items (m_f (b_m s))))
+  /\ m_imports (b_m s') = m_imports (b_m s)
+  /\ exists p, b_fpay s' = (fp, p) :: b_fpay s
+       /\ nth_error (ts_types (b_ts s')) (N.to_nat (fp_tid p)) = Some (mkT 0 params results None true false)
+       /\ expand (fp_groups p) = locs
+       /\ fp_body p = body ++ [end_tok]
+       /\ fp_name p = name.
+Proof. exact build_step_exact. Qed.
+Print Assumptions C12_build_step_exact.
+
+(* the function and code sections of the output: one entry per live local item of the index space, in order, each with
+   the signature stored at its type id, its stored local groups and its stored body *)
+Theorem C12_function_section_exact :
+  forall s sites o, bencode s sites = Ok o ->
+  exists lf mf, index_space (m_f (b_m s)) = Ok (lf, mf) /\
+  let live := map snd (filter (fun ki => is_local (snd ki) && negb (it_del (snd ki))) (number_items 0 lf)) in
+  length (bo_funcs o) = length live /\
+  forall k it, nth_error live k = Some it ->
+    exists p ty nm, plook (b_fpay s) (it_fp it) = Some p
+      /\ nth_error (ts_types (b_ts s)) (N.to_nat (fp_tid p)) = Some ty
+      /\ nth_error (bo_funcs o) k = Some (mkFO (it_fp it) (t_xs ty) (t_ys ty) (fp_groups p) (fp_body p) nm).
+Proof. exact function_section_exact. Qed.
+Print Assumptions C12_function_section_exact.
+
+(* end to end on the model, any history (no bound): a function built at any point of a history that does not reuse its
+   fingerprint is emitted -- wherever the index space puts it -- with exactly the requested parameter and result types,
+   local groups that expand to the requested locals, and the built sequence followed by one end *)
+Theorem C12_built_function_emitted :
+  forall s fp params results locs body name s1 r h rets s2 rets2 sites o,
+  tinv s -> bstep s (BBuild fp params results locs body name) = Ok (s1, r) ->
+  brun s1 h rets = (s2, rets2, false) -> (forall x, In x h -> fp_of x <> Some fp) ->
+  bencode s2 sites = Ok o ->
+  exists lf mf, index_space (m_f (b_m s2)) = Ok (lf, mf) /\
+  forall k it, nth_error (map snd (filter (fun ki => is_local (snd ki) && negb (it_del (snd ki))) (number_items 0 lf))) k = Some it ->
+    it_fp it = fp ->
+    exists g nm, nth_error (bo_funcs o) k = Some (mkFO fp params results g (body ++ [end_tok]) nm) /\ expand g = locs.
+Proof. exact built_function_emitted. Qed.
+Print Assumptions C12_built_function_emitted.
+
+(* agreement is equality; hence the same holds of the *observed* output of a case on which the implementation agrees *)
+Theorem C12_agree_is_equality :
+  forall c : bcase, agree c = true -> model_out c = (bo_rets c, bo_api_panic c, bo_enc c).
+Proof. exact agree_reflect. Qed.
+Print Assumptions C12_agree_is_equality.
+
+Theorem C12_checker_sound_first_build :
+  forall (c : bcase) o fp params results locs body name h,
+  agree c = true -> bo_enc c = Some o -> bh_ops c = BBuild fp params results locs body name :: h ->
+  (forall x, In x h -> fp_of x <> Some fp) ->
+  exists s2 lf mf, index_space (m_f (b_m s2)) = Ok (lf, mf) /\
+  forall k it, nth_error (map snd (filter (fun ki => is_local (snd ki) && negb (it_del (snd ki))) (number_items 0 lf))) k = Some it ->
+    it_fp it = fp ->
+    exists g nm, nth_error (bo_funcs o) k = Some (mkFO fp params results g (body ++ [end_tok]) nm) /\ expand g = locs.
+Proof. exact observed_built_function. Qed.
+Print Assumptions C12_checker_sound_first_build.
+
+(* D08 is a theorem about the faithful model: finish_module succeeds exactly on a module with
+   functions.len() = num_local_functions + imports.num_funcs; every parsed module satisfies it; after
+   convert_local_fn_to_import has converted a local function, every later finish_module panics, whatever else is
+   called in between. *)
+Theorem C12_build_needs_balance :
+  forall m fp, (exists r, step m (AddLocal SF fp) = Ok r) <-> behind m 0.
+Proof. exact build_needs_balance. Qed.
+Print Assumptions C12_build_needs_balance.
+Theorem C12_base_balanced : forall c : bcase, behind (b_m (bbase c)) 0.
+Proof. exact base_balanced. Qed.
+Print Assumptions C12_base_balanced.
+Theorem C12_D08_build_panics_after_conversion :
+  forall s id fpi it s1 r h rets s2 rets2 fp params results locs body name,
+  behind (b_m s) 0 ->
+  nthN (s_items (m_f (b_m s))) id = Some it -> is_local it = true ->
+  bstep s (BLocalToImport id fpi) = Ok (s1, r) ->
+  brun s1 h rets = (s2, rets2, false) ->
+  bstep s2 (BBuild fp params results locs body name) = Panic 2.
+Proof. exact D08_build_panics_after_conversion. Qed.
+Print Assumptions C12_D08_build_panics_after_conversion.
+
+(* The remaining part of the property -- the position of the function in the index space, i.e. that the returned id
+   and the name refer to it after imports are added / functions deleted -- rests on recalculate_ids (closed form:
+   C06_index_space_closed_form) and is decided per history by CheckBuild.verdict12 on the real output. *)
+
+Definition base_f (fp : N) (name : option N) : fobs := mkFO fp [] [] [] [(10, [Z.of_N fp]); (11, []); (1, [])] name.
+(* D08: convert_local_fn_to_import of another function, then finish_module: the API call panics *)
+Example C12_refuted_D08 :
+  let c := self_b [([], [])] [] [base_f 11 None; base_f 9999 None]
+             [BLocalToImport 0 21; BBuild 31 [0] [] [1] [(10, [31%Z]); (11, [])] None] [] in
+  agree c = true /\ bo_api_panic c = true /\ bo_rets c = [None]
+  /\ dom_of (verdict12 c) = true /\ holds_of (verdict12 c) = false /\ known_D08 c = true.
+Proof. vm_compute. repeat split; reflexivity. Qed.
+(* non-vacuity: two builds (one with a signature already in the type section, repeated local types, a name; one with a
+   v128 parameter and an explicit `end` inside the built sequence) interleaved with two import additions and a deletion,
+   five references: inside the domain, the property holds, and the output is what one expects *)
+Example C12_nonvacuous :
+  let c := self_b [([], []); ([0; 1], [2])] [(0, 1); (2, 2)]
+             [mkFO 11 [] [] [(2, 0)] [(10, [11%Z]); (11, []); (1, [])] (Some 5); base_f 9999 None]
+             [BAddImpFunc 21;
+              BBuild 31 [0; 1] [2] [3; 3; 0; 5] [(10, [31%Z]); (11, []); (20, [2139095041%Z])] (Some 7);
+              BDelete 1;
+              BBuild 32 [4] [] [] [(10, [32%Z]); (11, []); (30, [(-1)%Z]); (1, [])] None;
+              BAddImpFunc 22]
+             [0; 3; 4; 5; 6] in
+  agree c = true /\ dom_of (verdict12 c) = true /\ holds_of (verdict12 c) = true /\ known_of (verdict12 c) = []
+  /\ bo_rets c = [Some 3; Some 4; None; Some 5; Some 6]
+  /\ option_map bo_funcs (bo_enc c)
+     = Some [base_f 9999 None;
+             mkFO 31 [0; 1] [2] [(2, 3); (1, 0); (1, 5)] [(10, [31%Z]); (11, []); (20, [2139095041%Z]); (1, [])] (Some 7);
+             mkFO 32 [4] [] [] [(10, [32%Z]); (11, []); (30, [(-1)%Z]); (1, []); (1, [])] None]
+  /\ option_map bo_sites (bo_enc c) = Some [(0, 0); (1, 1); (2, 4); (3, 5); (4, 2)].
+Proof. vm_compute. repeat split; reflexivity. Qed.
